@@ -417,7 +417,285 @@ def cloudHandler (mode : String) : Option Handler :=
             if !finite3 p then "fail nonfinite-output" else sjudge (specCloud (pts.map q3)) (q3 d) (q3 p) 0 }
   | _ => none
 
+
+/-! ### feature maps -/
+
+def ffeat3 (f : Feature3 Float) : String :=
+  let n := f.verts.length
+  String.intercalate " " ([toString n] ++ f.verts.map fv3 ++ f.vids.map (fun c => s!"v{c}") ++
+    f.eids.map (fun c => s!"e{c}") ++ [s!"f{f.fid}"])
+def ffeat2 (f : Feature2 Float) : String :=
+  let n := f.verts.length
+  String.intercalate " " ([toString n] ++ f.verts.map fv2 ++ f.vids.map (fun c => s!"v{c}") ++ [s!"f{f.fid}"])
+
+/-- a feature id token `v12` / `e3` / `f9` with the expected kind letter -/
+def pid (kind : Char) : P Nat := do
+  let t ← tok
+  match t.toList with
+  | c :: rest => if c == kind then (match (String.ofList rest).toNat? with | some n => pure n | none => failure) else failure
+  | [] => failure
+def prep {α} (p : P α) : Nat → P (List α)
+  | 0 => pure []
+  | k + 1 => do let x ← p; let xs ← prep p k; pure (x :: xs)
+/-- parsed implementation output of a 3-D feature -/
+def pofeat3 : P (Feature3 Float) := do
+  let n ← pnat
+  let vs ← prep po3 n; let vi ← prep (pid 'v') n; let ei ← prep (pid 'e') n; let f ← pid 'f'; pend
+  pure { verts := vs, vids := vi, eids := ei, fid := f }
+def pofeat2 : P (Feature2 Float) := do
+  let n ← pnat
+  let vs ← prep po2 n; let vi ← prep (pid 'v') n; let f ← pid 'f'; pend
+  pure { verts := vs, vids := vi, fid := f }
+
+def close3 (a b : V3 Rat) (sl : Rat) : Bool := (a.sub b).normSq ≤ sl * sl
+def unitOk (D : V3 Rat) : Bool := rabs (D.normSq - 1) ≤ 1 / 10 ^ 9
+def approxEq (a b sl : Rat) : Bool := rabs (a - b) ≤ sl
+/-- some listed vertex attains the support value `h` of the shape in direction `D` -/
+def attains (vs : List (V3 Rat)) (D : V3 Rat) (h scale : Rat) : Bool := vs.any fun v => leS h (D.dot v) scale
+
+/-- cuboid faces (3-D with `dim = 3`, 2-D embedded with `he.z = 0`, `dim = 2`): the returned vertices are the
+`2^(dim-1)` distinct corners of one face whose axis carries the largest `|dir_k|`, on the side of `sign dir_k`,
+and one of them is a support point.  Returns the face `(axis, negative)` for the id checks. -/
+def cuboidFaceGeom (dim : Nat) (H D : V3 Rat) (vs : List (V3 Rat)) : Except String (Nat × Bool) :=
+  let ext := linf3 H; let sl := tol * (1 + ext); let scale := l1n3 D * ext
+  let isCorner := fun (v : V3 Rat) => (List.range dim).all fun i => approxEq (rabs (v.get i)) (H.get i) sl
+  if vs.length != 2 ^ (dim - 1) then .error s!"fail wrong-vertex-count {vs.length}" else
+  if !vs.all isCorner then .error "fail vertex-not-a-corner" else
+  let amax := (List.range dim).foldl (fun m i => rmax m (rabs (D.get i))) 0
+  let cand := (List.range dim).filter fun k => rabs (D.get k) = amax &&
+      vs.all fun v => approxEq (v.get k * (if D.get k < 0 then -1 else 1)) (H.get k) sl
+  match cand with
+  | [] => .error "fail not-on-the-supporting-face"
+  | k :: _ =>
+    let distinct := vs.zipIdx.all fun (v, i) => vs.zipIdx.all fun (w, j) => i == j || !close3 v w sl
+    if (List.range dim).all (fun i => H.get i > 2 * sl) && !distinct then .error "fail repeated-vertex" else
+    if !attains vs D ((List.range dim).foldl (fun a i => a + rabs (D.get i) * H.get i) 0) scale then .error "fail no-support-point-on-face" else
+    .ok (k, decide (D.get k < 0))
+
+/-- documented id scheme of `Cuboid::support_face` (3-D): vertex code = `2·(4·[x<0] + 2·[y<0] + [z<0])`,
+edge code = `0b11000000 | (hi << 3) | lo` of the end vertices' sign patterns, face code = `10 + axis (+3 if
+the normal is negative)`. -/
+def cuboidIds3 (f : Feature3 Float) (axis : Nat) (neg : Bool) : String :=
+  let pat := fun (v : V3 Float) => (if q v.x < 0 then 4 else 0) + (if q v.y < 0 then 2 else 0) + (if q v.z < 0 then 1 else 0)
+  let pats := f.verts.map pat
+  if f.vids != pats.map (· * 2) then s!"fail vid-does-not-encode-vertex-signs expected={pats.map (· * 2)} got={f.vids}" else
+  let n := pats.length
+  let eexp := (List.range n).map fun i =>
+    let a := pats.getD i 0; let b := pats.getD ((i + 1) % n) 0
+    192 + (Nat.max a b) * 8 + Nat.min a b
+  if f.eids != eexp then s!"fail eid-is-not-the-packed-pair-of-its-end-vertices expected={eexp} got={f.eids}" else
+  let fexp := 10 + axis + (if neg then 3 else 0)
+  if f.fid != fexp then s!"fail fid-does-not-encode-face-normal expected={fexp} got={f.fid}" else "pass"
+
+/-- documented id scheme of the 2-D cuboid: vertex code = `[x<0] + 2·[y<0]`, face code = `(hi << 2) | lo | 0b110000` -/
+def cuboidIds2 (f : Feature2 Float) : String :=
+  let pats := f.verts.map fun (v : V2 Float) => (if q v.x < 0 then 1 else 0) + (if q v.y < 0 then 2 else 0)
+  if f.vids != pats then s!"fail vid-does-not-encode-vertex-signs expected={pats} got={f.vids}" else
+  let a := pats.getD 0 0; let b := pats.getD 1 0
+  let fexp := (Nat.max a b) * 4 + Nat.min a b + 48
+  if f.fid != fexp then s!"fail fid-is-not-the-packed-pair-of-its-vertices expected={fexp} got={f.fid}" else "pass"
+
+/-- generic judgement for the curved shapes' features: all vertices in the shape, one of them a support point -/
+def featJudge (s : Spec) (D : V3 Rat) (vs : List (V3 Rat)) : Option String :=
+  let sl := tol * (1 + s.ext)
+  if !vs.all (fun v => s.mem v sl) then some "fail vertex-not-a-member"
+  else if !attains vs D (s.h D) (l1n3 D * s.ext) then some "fail no-support-point-on-feature"
+  else none
+
+/-- consecutive vertices `pts[i], pts[i+1 mod n]` of a counter-clockwise convex polygon, one of them a support
+vertex (⇔ the edge is a supporting face: its normal cone contains `dir` on one side) -/
+def polyEdgeJudge (pts : List (V3 Rat)) (D : V3 Rat) (vs : List (V3 Rat)) (ids : Option (List Nat × Nat)) : String :=
+  let n := pts.length
+  let ext := pts.foldl (fun m w => rmax m (linf3 w)) 0; let sl := tol * (1 + ext)
+  let cross := fun (a b c : V3 Rat) => (b.x - a.x) * (c.y - a.y) - (b.y - a.y) * (c.x - a.x)
+  let ccw := (List.range n).all fun i =>
+    cross (pts.getD i ⟨0,0,0⟩) (pts.getD ((i + 1) % n) ⟨0,0,0⟩) (pts.getD ((i + 2) % n) ⟨0,0,0⟩) > 0
+  if !ccw then "skip not-strictly-ccw-convex" else
+  match vs with
+  | [v1, v2] =>
+    match (List.range n).find? (fun i => close3 (pts.getD i ⟨0,0,0⟩) v1 sl && close3 (pts.getD ((i + 1) % n) ⟨0,0,0⟩) v2 sl) with
+    | none => "fail not-an-edge-of-the-polygon"
+    | some i =>
+      let mx := (specCloud pts).h D
+      if !attains vs D mx (l1n3 D * ext) then "fail no-support-point-on-face" else
+      match ids with
+      | some (vids, fid) =>
+        -- ConvexPolygon: vertex code 2·index, face code 2·index+1; Triangle: vertex code index, face code index
+        if vids.length != 2 then "fail wrong-id-count" else
+        let i1 := vids.getD 0 0; let i2 := vids.getD 1 0
+        if (i1 == 2 * i && i2 == 2 * ((i + 1) % n) && fid == 2 * i + 1) || (i1 == i && i2 == (i + 1) % n && fid == i) then "pass"
+        else s!"fail ids-do-not-name-the-returned-edge edge={i} vids={vids} fid={fid}"
+      | none => "pass"
+  | _ => "fail wrong-vertex-count"
+
+def fh3 {α : Type} (parse : P (α × V3 Float)) (model : α → V3 Float → String) (orc : α → V3 Rat → Feature3 Float → String)
+    (finiteA : α → Bool) (needUnit : Bool) : Handler :=
+  { model := fun a => run (do let (x, d) ← parse; pend; pure (model x d)) a
+    oracle := fun a o => match run parse a with
+      | none => "skip bad-args"
+      | some (x, d) =>
+        if !(finiteA x && finite3 d) then "skip nonfinite-input" else
+        withOut pofeat3 o fun f =>
+          if !f.verts.all finite3 then "fail nonfinite-output" else
+          match dirVerdict (q3 d) needUnit with
+          | some v => v
+          | none => orc x (q3 d) f }
+def fh2 {α : Type} (parse : P (α × V2 Float)) (model : α → V2 Float → String) (orc : α → V3 Rat → Feature2 Float → String)
+    (finiteA : α → Bool) (needUnit : Bool) : Handler :=
+  { model := fun a => run (do let (x, d) ← parse; pend; pure (model x d)) a
+    oracle := fun a o => match run parse a with
+      | none => "skip bad-args"
+      | some (x, d) =>
+        if !(finiteA x && finite2 d) then "skip nonfinite-input" else
+        withOut pofeat2 o fun f =>
+          if !f.verts.all finite2 then "fail nonfinite-output" else
+          match dirVerdict (up (q2 d)) needUnit with
+          | some v => v
+          | none => orc x (up (q2 d)) f }
+def fseg {α : Type} (parse : P (α × V3 Float)) (model : α → V3 Float → V3 Float × V3 Float)
+    (orc : α → V3 Rat → V3 Rat → V3 Rat → String) (finiteA : α → Bool) : Handler :=
+  { model := fun a => run (do let (x, d) ← parse; pend; let (p1, p2) := model x d; pure s!"{fv3 p1} {fv3 p2}") a
+    oracle := fun a o => match run parse a with
+      | none => "skip bad-args"
+      | some (x, d) =>
+        if !(finiteA x && finite3 d) then "skip nonfinite-input" else
+        withOut (do let p1 ← po3; let p2 ← po3; pend; pure (p1, p2)) o fun (p1, p2) =>
+          if !(finite3 p1 && finite3 p2) then "fail nonfinite-output" else
+          match dirVerdict (q3 d) false with
+          | some v => v
+          | none => orc x (q3 d) (q3 p1) (q3 p2) }
+
+def featureHandler (fn : String) : Option Handler :=
+  let cuboidOrc3 : V3 Float → V3 Rat → Feature3 Float → String := fun he D f =>
+    let H := q3 he
+    if H.x ≤ 0 || H.y ≤ 0 || H.z ≤ 0 then "skip non-positive-half-extent" else
+    match cuboidFaceGeom 3 H D (f.verts.map q3) with
+    | .error e => e
+    | .ok (axis, neg) => cuboidIds3 f axis neg
+  let cuboidOrc2 : V2 Float → V3 Rat → Feature2 Float → String := fun he D f =>
+    let H := q2 he
+    if H.x ≤ 0 || H.y ≤ 0 then "skip non-positive-half-extent" else
+    match cuboidFaceGeom 2 ⟨H.x, H.y, 0⟩ D (f.verts.map up2) with
+    | .error e => e
+    | .ok _ => cuboidIds2 f
+  let tri3 : P ((V3 Float × V3 Float × V3 Float) × V3 Float) := do
+    let a ← pv3; let b ← pv3; let c ← pv3; let d ← pv3; pure ((a, b, c), d)
+  let tri2 : P ((V2 Float × V2 Float × V2 Float) × V2 Float) := do
+    let a ← pv2; let b ← pv2; let c ← pv2; let d ← pv2; pure ((a, b, c), d)
+  let negMax : Float := -1.7976931348623157e308
+  match fn with
+  | "cuboid_face" => some (fh3 (do let he ← pv3; let d ← pv3; pure (he, d)) (fun he d => ffeat3 (cuboidSupportFace3 he d)) cuboidOrc3 finite3 false)
+  | "cuboid_feature" => some (fh3 (do let he ← pv3; let d ← pv3; pure (he, d)) (fun he d => ffeat3 (cuboidSupportFace3 he d)) cuboidOrc3 finite3 true)
+  | "cuboid2_face" => some (fh2 (do let he ← pv2; let d ← pv2; pure (he, d)) (fun he d => ffeat2 (cuboidSupportFace2 he d)) cuboidOrc2 finite2 false)
+  | "cuboid2_feature" => some (fh2 (do let he ← pv2; let d ← pv2; pure (he, d)) (fun he d => ffeat2 (cuboidSupportFace2 he d)) cuboidOrc2 finite2 true)
+  | "cuboid_edge" => some (fseg (do let he ← pv3; let d ← pv3; pure (he, d)) (fun he d => cuboidSupportEdge3 he d)
+      (fun he D p1 p2 =>
+        let H := q3 he
+        if H.x < 0 || H.y < 0 || H.z < 0 then "skip negative-half-extent" else
+        let ext := linf3 H; let sl := tol * (1 + ext)
+        let isCorner := fun (v : V3 Rat) => (List.range 3).all fun i => approxEq (rabs (v.get i)) (H.get i) sl
+        if !(isCorner p1 && isCorner p2) then "fail vertex-not-a-corner" else
+        let amin := rmin (rabs D.x) (rmin (rabs D.y) (rabs D.z))
+        -- the edge runs along an axis of least |dir_k|: the end points differ (by sign) only there
+        let okAxis := (List.range 3).any fun k => rabs (D.get k) = amin &&
+          approxEq (p1.get k) (-(p2.get k)) sl && (List.range 3).all fun i => i == k || approxEq (p1.get i) (p2.get i) sl
+        if !okAxis then "fail not-an-edge-along-the-least-axis" else
+        if !attains [p1, p2] D ((specCuboid H).h D) (l1n3 D * ext) then "fail no-support-point-on-edge" else "pass")
+      finite3)
+  | "triangle_feature" => some (fh3 tri3 (fun (a, b, c) _ => ffeat3 (triangleSupportFace3 a b c))
+      (fun (a, b, c) D f =>
+        let T := [q3 a, q3 b, q3 c]; let vs := f.verts.map q3
+        let ext := T.foldl (fun m w => rmax m (linf3 w)) 0; let sl := tol * (1 + ext)
+        if vs.length != 3 then "fail wrong-vertex-count" else
+        if !(vs.all fun v => T.any fun t => close3 v t sl) then "fail vertex-not-a-triangle-vertex" else
+        if !(T.all fun t => vs.any fun v => close3 v t sl) then "fail triangle-vertex-missing" else
+        if !attains vs D ((specCloud T).h D) (l1n3 D * ext) then "fail no-support-point-on-face" else
+        if f.vids == [0, 1, 2] && f.eids == [0, 1, 2] && f.fid == 0 then "pass" else "fail unexpected-ids")
+      (fun (a, b, c) => finite3 a && finite3 b && finite3 c) true)
+  | "triangle_edge" => some (fseg tri3 (fun (a, b, c) d => triangleSupportEdge3 a b c d)
+      (fun (a, b, c) D p1 p2 =>
+        let T := [q3 a, q3 b, q3 c]
+        let ext := T.foldl (fun m w => rmax m (linf3 w)) 0; let sl := tol * (1 + ext)
+        if !([p1, p2].all fun v => T.any fun t => close3 v t sl) then "fail vertex-not-a-triangle-vertex" else
+        if !attains [p1, p2] D ((specCloud T).h D) (l1n3 D * ext) then "fail no-support-point-on-edge" else "pass")
+      (fun (a, b, c) => finite3 a && finite3 b && finite3 c))
+  | "triangle2_feature" => some (fh2 tri2 (fun (a, b, c) d => ffeat2 (triangleSupportFace2 negMax a b c d))
+      (fun (a, b, c) D f => polyEdgeJudge [up2 a, up2 b, up2 c] D (f.verts.map up2) (some (f.vids, f.fid)))
+      (fun (a, b, c) => finite2 a && finite2 b && finite2 c) true)
+  | "segment_feature" => some (fh3 (do let a ← pv3; let b ← pv3; let d ← pv3; pure ((a, b), d)) (fun (a, b) _ => ffeat3 (segmentFeature3 a b))
+      (fun (a, b) D f =>
+        let vs := f.verts.map q3; let A := q3 a; let B := q3 b
+        let ext := rmax (linf3 A) (linf3 B); let sl := tol * (1 + ext)
+        match vs with
+        | [v1, v2] =>
+          if !((close3 v1 A sl && close3 v2 B sl) || (close3 v1 B sl && close3 v2 A sl)) then "fail not-the-segment-end-points" else
+          if !attains vs D ((specSegment A B).h D) (l1n3 D * ext) then "fail no-support-point-on-feature" else "pass"
+        | _ => "fail wrong-vertex-count")
+      (fun (a, b) => finite3 a && finite3 b) true)
+  | "segment2_feature" => some (fh2 (do let a ← pv2; let b ← pv2; let d ← pv2; pure ((a, b), d)) (fun (a, b) _ => ffeat2 (segmentFeature2 a b))
+      (fun (a, b) D f =>
+        let vs := f.verts.map up2; let A := up2 a; let B := up2 b
+        let ext := rmax (linf3 A) (linf3 B); let sl := tol * (1 + ext)
+        match vs with
+        | [v1, v2] =>
+          if !((close3 v1 A sl && close3 v2 B sl) || (close3 v1 B sl && close3 v2 A sl)) then "fail not-the-segment-end-points" else
+          if !attains vs D ((specSegment A B).h D) (l1n3 D * ext) then "fail no-support-point-on-feature" else "pass"
+        | _ => "fail wrong-vertex-count")
+      (fun (a, b) => finite2 a && finite2 b) true)
+  | "cylinder_feature" => some (fh3 (do let hh ← pf; let r ← pf; let d ← pv3; pure ((hh, r), d)) (fun (hh, r) d => ffeat3 (cylinderFeature hh r d))
+      (fun (hh, r) D f =>
+        let s := specCylinder (q hh) (q r)
+        match s.invalid with
+        | some why => "skip " ++ why
+        | none =>
+          let vs := f.verts.map q3; let sl := tol * (1 + s.ext); let R := q r; let HH := q hh
+          match featJudge s D vs with
+          | some e => e
+          | none =>
+            let onRim := vs.all fun v => approxEq (v.x * v.x + v.z * v.z) (R * R) (sl * (1 + 2 * R))
+            if !onRim then "fail vertex-not-on-the-rim-circle" else
+            match vs with
+            | [v1, v2] => -- a generator of the curved part: same (x,z), the two caps
+              if approxEq v1.x v2.x sl && approxEq v1.z v2.z sl && approxEq (rabs v1.y) HH sl && approxEq v1.y (-v2.y) sl then "pass"
+              else "fail not-a-generator-segment"
+            | [v1, v2, v3, v4] => -- a square inscribed in one cap circle
+              let sameY := [v2, v3, v4].all fun v => approxEq v.y v1.y sl
+              let sq := approxEq (v1.x + v3.x) 0 sl && approxEq (v1.z + v3.z) 0 sl && approxEq (v2.x + v4.x) 0 sl &&
+                approxEq (v2.z + v4.z) 0 sl && approxEq (v1.x * v2.x + v1.z * v2.z) 0 (sl * (1 + R))
+              if sameY && approxEq (rabs v1.y) HH sl && sq then "pass" else "fail not-an-inscribed-cap-square"
+            | _ => "fail wrong-vertex-count")
+      (fun (hh, r) => fin hh && fin r) true)
+  | "cone_feature" => some (fh3 (do let hh ← pf; let r ← pf; let d ← pv3; pure ((hh, r), d)) (fun (hh, r) d => ffeat3 (coneFeature hh r d))
+      (fun (hh, r) D f =>
+        let s := specCone (q hh) (q r)
+        match s.invalid with
+        | some why => "skip " ++ why
+        | none =>
+          let vs := f.verts.map q3; let sl := tol * (1 + s.ext); let R := q r; let HH := q hh
+          match featJudge s D vs with
+          | some e => e
+          | none =>
+            match vs with
+            | [v1, v2] => -- a generator: base rim point and apex
+              if approxEq (v1.x * v1.x + v1.z * v1.z) (R * R) (sl * (1 + 2 * R)) && approxEq v1.y (-HH) sl && close3 v2 ⟨0, HH, 0⟩ sl then "pass"
+              else "fail not-a-generator-segment"
+            | [v1, v2, v3, v4] =>
+              let onRim := vs.all fun v => approxEq (v.x * v.x + v.z * v.z) (R * R) (sl * (1 + 2 * R)) && approxEq v.y (-HH) sl
+              let sq := approxEq (v1.x + v3.x) 0 sl && approxEq (v1.z + v3.z) 0 sl && approxEq (v2.x + v4.x) 0 sl &&
+                approxEq (v2.z + v4.z) 0 sl && approxEq (v1.x * v2.x + v1.z * v2.z) 0 (sl * (1 + R))
+              if onRim && sq then "pass" else "fail not-an-inscribed-base-square"
+            | _ => "fail wrong-vertex-count")
+      (fun (hh, r) => fin hh && fin r) true)
+  | "polygon_feature" => some (fh2 (do let pts ← ppts2; let d ← pv2; pure (pts, d))
+      (fun pts d => match polygonFeature pts d with | some f => ffeat2 f | none => "panic")
+      (fun pts D f => polyEdgeJudge (pts.map up2) D (f.verts.map up2) (some (f.vids, f.fid)))
+      (fun pts => pts.all finite2) true)
+  | _ => none
+
 def handler (fn : String) : Option Handler :=
+  match featureHandler fn with
+  | some h => some h
+  | none =>
   match fn.splitOn "_" with
   | [shape, mode] =>
     if shape == "cloud" then cloudHandler mode else
